@@ -19,7 +19,8 @@ __wrap_vad_classify(vad_t *vad, const short *frame)
 }
 
 static double WINDOW, RATIO, FLEN;
-static int RATE;
+static int RATE;     /* the rate the reference computes with (defaults resolved) */
+static int RATE_ARG; /* the rate as the caller passes it: 0 asks for the default */
 /* thresholds computed by the harness from the configured values (the documented formulas) */
 static int M_maxlen, M_start, M_end, M_fs;
 static double M_fl;
@@ -69,7 +70,7 @@ fresh(void *c)
 {
     obj_t *o = calloc(1, sizeof *o);
     (void)c;
-    o->ep = endpointer_init(WINDOW, RATIO, VAD_LOOSE, RATE, FLEN);
+    o->ep = endpointer_init(WINDOW, RATIO, VAD_LOOSE, RATE_ARG, FLEN);
     o->last_ret = -1;
     return o;
 }
@@ -345,7 +346,7 @@ explore_config(double window, double ratio, double flen, int rate, int maxwin, c
     WINDOW = window;
     RATIO = ratio;
     FLEN = flen;
-    RATE = rate;
+    RATE = RATE_ARG = rate;
     snprintf(cfg, sizeof cfg, "window=%g ratio=%g flen=%g rate=%d", WINDOW, RATIO, FLEN, RATE);
     mc_set_current(cfg);
     valid = model_config();
